@@ -196,6 +196,21 @@ INFO = {
                      "inside that callback answers ResourceNotAvailable instead of ResourceNotFound", ["C13", "C14"]),
     "C16-5": ("C16", "receive_timeout keeps a running 'remaining' and subtracts the cumulative elapsed time from it: after "
                      "two wake-ups by timer commands that make nothing deliverable it answers None before the timeout", ["C16", "C08"]),
+    "C03-5": ("C03", "check_stream_ready treats only ECONNREFUSED as a failure: a connection reset while still pending "
+                     "(RST in the accept queue, an acceptor that goes away) stays registered for ever", ["C03", "C18", "C13"]),
+    "C18-5": ("C18", "the same narrowing of check_stream_ready (independently found): reset pending sockets leak their "
+                     "descriptors and a connect() is never answered", ["C18", "C03"]),
+    "C11-5": ("C11", "for_each_async drains the start-up cache with pop_back: events cached before the listener started "
+                     "are replayed in reverse", ["C11", "C01", "C03", "C15"]),
+    "C12-5": ("C12", "the IPv6 receive_broadcasts listener asks for IPv4 packet info: recvmsg never yields the control "
+                     "message and every datagram is dropped", ["C12", "C13"]),
+    "C14-5": ("C14", "the receive_broadcasts listener builds the endpoint from the address the datagram arrived on "
+                     "instead of the sender's: a sender on another ip is reported as 127.0.0.1:port", ["C14", "C12"]),
+    "C15-5": ("C15", "the caching thread polls with process_poll_events_until_timeout: it looks at its stop flag only after "
+                     "50 ms without any poll activity, so with a peer sending every few ms the listener call never "
+                     "takes over and nothing is delivered while the traffic lasts", ["C15", "C09"]),
+    "C17-5": ("C17", "try_decode compares used_bytes + expected_size with the buffer: a 10-byte prefix near 2^64 arriving "
+                     "in one read overflows the addition and panics the network thread", ["C17", "C02"]),
     "C19-5": ("C19", "an ip:port text with port 0 (127.0.0.1:0, [::1]:0) is classified as a string", ["C19"]),
     "C19-1": ("C19", "SocketAddrV6 with non-zero flowinfo/scope_id converted to RemoteAddr: the fields are dropped", ["C19"]),
 }
